@@ -50,6 +50,44 @@ def task_run_rule(c, T, adt, first, last):
         c.ob('%s/run/listener' % nm, q.sem_is_name(b, r, 'self') and any('listener' in p for p in r.proj), 'announcements go to self.listener', repr(r), cs.loc())
 
 
+TIMERS = ('tokio::time::sleep::sleep_until', 'tokio::time::sleep::sleep', 'tokio::time::timeout::timeout')
+
+
+def wait_sites(b):
+    """the timed waits of a client task in body `b` during which the queue keeps being serviced:
+    [{'node': node that starts the wait, 'dur': operand holding the duration, 'cs': call site, 'how': text}]
+      * a call of ClientLoop::fail_requests_for(duration);
+      * written out (or in a helper the view inlined): `sleep_until(Instant::now() + d)` / `sleep(d)` raced by select! with
+        fail_requests(), or `timeout(d, fail_requests())`."""
+    out = []
+    for cs in b.calls(FRF):
+        out.append({'node': cs.node, 'dur': cs.args[1], 'cs': cs, 'how': 'fail_requests_for', 'fired': None})
+    sels = q.select_sites(b)
+    for t in b.calls(*TIMERS):
+        if t.is_('tokio::time::timeout::timeout'):
+            inner = q.sem(b, t.args[1])
+            if not (inner.kind == 'call' and inner.cs.is_(CL + '::fail_requests')):
+                continue
+            out.append({'node': t.node, 'dur': t.args[0], 'cs': t, 'how': 'timeout(d, fail_requests())', 'fired': q.outcomes(b, t).get('Err', []), 'race': t})
+            continue
+        sel = [s_ for s_ in sels if t in s_['futures'] and any(f is not None and f.is_(CL + '::fail_requests') for f in s_['futures'])]
+        if len(sel) != 1:
+            continue
+        dur = t.args[0]
+        if t.is_('tokio::time::sleep::sleep_until'):
+            d = q.sem(b, t.args[0])
+            if not (d.kind == 'call' and d.cs.declared == 'core::ops::arith::Add::add' and len(d.cs.args) == 2):
+                continue
+            now = [a for a in d.cs.args if q.sem(b, a).kind == 'call' and (q.sem(b, a).cs.callee or '').endswith('Instant::now')]
+            rest = [a for a in d.cs.args if a not in now]
+            if len(now) != 1 or len(rest) != 1 or b.in_cycle(d.cs.node):
+                continue
+            dur = rest[0]
+        k = sel[0]['futures'].index(t)
+        out.append({'node': t.node, 'dur': dur, 'cs': t, 'how': 'select!{%s, fail_requests()}' % t.callee.rsplit('::', 1)[-1], 'fired': [sel[0]['arms'][k]] if k in sel[0]['arms'] else [], 'race': sel[0]['poll_fn']})
+    return out
+
+
 @rule('C13', 'R13.1', 'Disabled first, Shutdown exactly once and last')
 def r1(c):
     task_run_rule(c, TT, CS, 'Disabled', 'Shutdown')
@@ -101,7 +139,7 @@ def r3(c):
     h = P.fn(TT + '::handle_failed_connection')
     c.saw(h, len(h.calls()))
     ev = events(h, CS)
-    fr = one(h.calls(FRF), 'fail_requests_for')
+    fr = one(wait_sites(h), 'timed wait (fail_requests_for or a timer raced with fail_requests)')['cs']
     c.ob('failed/event', [v for _, v in ev] == ['WaitAfterFailedConnect'] and h.dominates(ev[0][0].ret, fr.node), 'handle_failed_connection announces WaitAfterFailedConnect before waiting', str([v for _, v in ev]), loc_of(h))
     t = P.fn(TT + '::try_connect_and_run')
     cn = one(t.calls(TT + '::connect'), 'connect')
@@ -110,13 +148,17 @@ def r3(c):
     # inner result of connect(): Result<Result<TcpStream, io::Error>, StateChange>; `?` strips the outer one
     inner_err = [e for e, v, info in t.variant_edges('core::result::Result') if v == 'Err' and q.sem(t, info['place']).kind == 'call' and q.sem(t, info['place']).cs is cn and q.sem(t, info['place']).checked]
     hd_err = q.outcomes(t, hd).get('Err', [])
-    ok1 = len(inner_err) == 1 and any(q.dom(t, inner_err[0], x.node) for x in hf_calls)
-    ok2 = len(hd_err) == 1 and any(q.dom(t, hd_err[0], x.node) for x in hf_calls)
+    # every way on from the failure passes handle_failed_connection (the two failures may share one arm)
+    hfn = {x.node for x in hf_calls}
+    ok1 = len(inner_err) == 1 and bool(hfn) and q.always_passes(t, inner_err[0], hfn)[0]
+    ok2 = len(hd_err) == 1 and bool(hfn) and q.always_passes(t, hd_err[0], hfn)[0]
     c.ob('failed/connect-error', ok1, 'a refused / failed connect goes to handle_failed_connection', '', cn.loc())
     c.ob('failed/handshake-error', ok2, 'a failed connection handler (TLS handshake) goes to handle_failed_connection', '', hd.loc())
     for e in inner_err + hd_err:
-        xs = [x for x in q.exits(t) if x['node'] in t.reach_set(e) and q.dom(t, e, x['node'])]
-        c.ob('failed/returns-wait-result', bool(xs) and all(x['kind'] in ('call', 'copy') for x in xs), 'the result of the wait is what the attempt returns', '', loc_of(t, e[1]))
+        rs_ = t.reach_set(e)
+        xs = [x for x in q.exits(t) if x['node'] in rs_]
+        okw = bool(xs) and all((x['kind'] == 'call' and x['cs'] in hf_calls) or (x['kind'] == 'copy' and x['sem'].kind == 'call' and x['sem'].cs in hf_calls) for x in xs)
+        c.ob('failed/returns-wait-result', okw, 'the result of the wait is what the attempt returns', str([(x['kind'], x.get('variant')) for x in xs]), loc_of(t, e[1]))
     r = P.fn(TT + '::run_connection')
     arms = q.arms_of(r, 'rodbus::client::task::SessionError')
     for v in ('IoError', 'BadFrame', 'MaxTimeouts'):
@@ -124,7 +166,7 @@ def r3(c):
         for e, rg in arms.get(v, []):
             reg |= rg
         evs = [(cs, x) for cs, x in events(r, CS) if cs.node in reg]
-        fr = [cs for cs in r.calls(FRF) if cs.node in reg]
+        fr = [w['cs'] for w in wait_sites(r) if w['node'] in reg]
         ok = [x for _, x in evs] == ['WaitAfterDisconnect'] and len(fr) == 1 and r.dominates(evs[0][0].ret, fr[0].node)
         c.ob('lost/%s' % v, ok, 'a session ending with %s announces WaitAfterDisconnect, then waits' % v, str([x for _, x in evs]), loc_of(r))
     for v, want in (('Shutdown', 'Err'), ('Disabled', 'Ok')):
@@ -205,13 +247,13 @@ def r5(c):
         xs = [x for x in q.exits(b) if e is not None and q.dom(b, e, x['node'])]
         c.ob('connect/state-change', bool(xs) and all(x['kind'] == 'agg' and x['variant'] == 'Err' for x in xs), 'a state change (disable / shutdown) during the attempt aborts it with Err(change)', '', loc_of(b))
     f = P.fn(FRF)
-    sel = q.select_sites(f)
-    okf = len(sel) == 1 and sorted(x.callee if x else '' for x in sel[0]['futures']) == sorted(['tokio::time::sleep::sleep_until', CL + '::fail_requests'])
-    c.ob('fail_requests_for/raced', okf, 'the wait is sleep_until(deadline) raced with fail_requests()', '', loc_of(f))
+    ws = [w for w in wait_sites(f) if w['how'] != 'fail_requests_for']
+    okf = len(ws) == 1 and q.is_name(f, ws[0]['dur'], 'duration')
+    c.ob('fail_requests_for/raced', okf, 'the wait is a timer for the given duration raced with fail_requests()', str([w['how'] for w in ws]), loc_of(f))
     if okf:
         # unconditionally: every way through fail_requests_for passes that race (an early return for some delay value would let a
         # caller whose attempt is synchronous - the serial open - loop without ever waiting or looking at the queue)
-        oka, leak = q.always_passes(f, f.entry, {sel[0]['poll_fn'].node})
+        oka, leak = q.always_passes(f, f.entry, {ws[0]['race'].node})
         c.ob('fail_requests_for/always-waits', oka, 'no path through fail_requests_for skips the race (whatever the duration)', 'returns reachable without it: %s' % [loc_of(f, n_[1]) for n_ in leak], loc_of(f))
     fr = P.fn(CL + '::fail_requests')
     nx = one(fr.calls(CL + '::fail_next_request'), 'fail_next_request')
